@@ -26,6 +26,11 @@ theorem unfoldVT_det (T : Types) {n m : Nat} {v : ValueType} {x y : Tree}
 theorem HasVT.det {T : Types} {v : ValueType} {x y : Tree} (hx : HasVT T v x) (hy : HasVT T v y) : x = y := by
   obtain ⟨n, hn⟩ := hx; obtain ⟨m, hm⟩ := hy; exact unfoldVT_det T hn hm
 
+theorem HasFn.det {T : Types} {f : Nat} {x y : Tree} (hx : HasFn T f x) (hy : HasFn T f y) : x = y := by
+  obtain ⟨n, hn⟩ := hx; obtain ⟨m, hm⟩ := hy
+  exact unfoldKind_det T (n := n + 1) (m := m + 1) (k := .func f) (by simpa [Types.unfoldKind] using hn)
+    (by simpa [Types.unfoldKind] using hm)
+
 /-- every defined type of the collection unfolds, within fuel `index + 2` (true of the collection
 the aggregator builds: a defined type is appended after its components) -/
 def Closed (T : Types) : Prop := ∀ d, d < T.defined.length → ∃ t, T.unfoldVT (d + 2) (.defined d) = some t
@@ -105,7 +110,17 @@ theorem Closed.leaf_fuel {T : Types} (hc : Closed T) {k : ItemKind} (hk : LeafK 
       simp only [Types.unfoldKind] at h ⊢
       obtain ⟨x, hx, rfl⟩ := Option.map_eq_some_iff.1 h
       rw [hc.vt_fuel hx]; rfl
-    | type _ => cases hk
+    | type ty =>
+      cases ty with
+      | func f =>
+        simp only [Types.unfoldKind] at h ⊢
+        obtain ⟨x, hx, rfl⟩ := Option.map_eq_some_iff.1 h
+        rw [hc.fn_fuel hx]; rfl
+      | value v =>
+        simp only [Types.unfoldKind] at h ⊢
+        obtain ⟨x, hx, rfl⟩ := Option.map_eq_some_iff.1 h
+        rw [hc.vt_fuel hx]; rfl
+      | _ => cases hk
     | «instance» _ => cases hk
     | component _ => cases hk
     | module _ => cases hk
